@@ -487,3 +487,10 @@ Fixpoint safe_mb (fl : bool) (m : member) : bool :=
   end.
 Definition wf_sig (x : sigt) : bool := wf_mb (top x).
 Definition safe_sig (x : sigt) : bool := safe_mb false (top x).
+(* no interface member below the top has dimensions (connect() cannot traverse arrays of interfaces) *)
+Fixpoint nodims_m (m : member) : bool :=
+  match m with
+  | Port _ _ _ _ => true
+  | Iface _ _ ms _ => forallb (fun nm => (m_is_port (snd nm) || is_nil (m_dims (snd nm))) && nodims_m (snd nm)) ms
+  end.
+Definition nodims_sig (x : sigt) : bool := nodims_m (top x).
